@@ -3,6 +3,7 @@ package real
 import (
 	"encoding/json"
 	"fmt"
+	"github.com/cosmos/cosmos-sdk/x/authz"
 	"math/big"
 	"sync"
 	"time"
@@ -135,7 +136,43 @@ func NewOn(g *script.Genesis, home, backend string) (r *Runner, err error) {
 		}
 		bals = append(bals, banktypes.Balance{Address: base.Address, Coins: coins})
 	}
+	for _, la := range g.Long {
+		addr, ok := r.Sym.Mods[la[0]]
+		if !ok {
+			return nil, fmt.Errorf("G lacct: unknown token %s", la[0])
+		}
+		coins, err := genesisCoins(la[1])
+		if err != nil {
+			return nil, err
+		}
+		base := authtypes.NewBaseAccount(addr, nil, uint64(len(accs)), 0)
+		accs = append(accs, base)
+		bals = append(bals, banktypes.Balance{Address: base.Address, Coins: coins})
+	}
 	gs[authtypes.ModuleName] = cdc.MustMarshalJSON(authtypes.NewGenesisState(authtypes.DefaultParams(), accs))
+	if len(g.Grants) > 0 {
+		var ag authz.GenesisState
+		for _, gr := range g.Grants {
+			granter, err := r.Sym.Resolve(gr[0])
+			if err != nil {
+				return nil, err
+			}
+			grantee, err := r.Sym.Resolve(gr[1])
+			if err != nil {
+				return nil, err
+			}
+			url, err := TypeURL(gr[2])
+			if err != nil {
+				return nil, err
+			}
+			any, err := codectypes.NewAnyWithValue(authz.NewGenericAuthorization(url))
+			if err != nil {
+				return nil, err
+			}
+			ag.Authorization = append(ag.Authorization, authz.GrantAuthorization{Granter: granter, Grantee: grantee, Authorization: any})
+		}
+		gs[authz.ModuleName] = cdc.MustMarshalJSON(&ag)
+	}
 
 	// --- staking: one bonded validator operated and self-delegated by V
 	bond := sdk.DefaultPowerReduction
